@@ -324,8 +324,8 @@ func (r *ref) onInterest(in *inst, o *iOp, nonce uint32, hasNonce, dead bool, be
 			v = append(v, viol("C02.drop", "Interest forwarded although: "+reason+" ("+path+" path)", ctx))
 		}
 		// whether such an Interest is nevertheless recorded as pending is not C02's subject
-		if ir := implRec(in.dump, k, o.face); hasNonce && ir != nil && ir.Nonce == nonce && ir.ExpireIn == lifetime {
-			r.get(k).recs[o.face] = &rec{nonce: nonce, expiry: now.Add(lifetime)}
+		if ir := implRec(in.dump, k, o.face); hasNonce && ir != nil && ir.Nonce == nonce && ir.ExpireIn == o.life() {
+			r.get(k).recs[o.face] = &rec{nonce: nonce, expiry: now.Add(o.life())}
 		}
 		return
 	}
@@ -523,10 +523,10 @@ func (r *ref) onInterest(in *inst, o *iOp, nonce uint32, hasNonce, dead bool, be
 		accepted := true
 		if mayDrop {
 			ir := implRec(in.dump, k, o.face)
-			accepted = ir != nil && ir.Nonce == nonce && ir.ExpireIn == lifetime
+			accepted = ir != nil && ir.Nonce == nonce && ir.ExpireIn == o.life()
 		}
 		if accepted {
-			r.get(k).recs[o.face] = &rec{nonce: nonce, expiry: now.Add(lifetime)}
+			r.get(k).recs[o.face] = &rec{nonce: nonce, expiry: now.Add(o.life())}
 		}
 	}
 	if len(is) > 0 {
@@ -557,13 +557,16 @@ func (r *ref) entStr(k key, now time.Time) string {
 	return s
 }
 
-// sync adopts from the white-box dump what C02 does not judge: which downstream records still
-// exist (consumed by Data, expired and reaped). Entries without records are no longer pending.
-func (r *ref) sync(in *inst) {
+// sync adopts from the white-box dump what C02 does not judge: a downstream record that vanished
+// is taken as consumed only right after a Data arrival, and as expired only once its lifetime has
+// elapsed. A record that disappears from the name tree at any other moment (e.g. its node
+// detached while pruning a descendant) stays pending in the reference: the Interest it stands for
+// was neither satisfied nor has it expired, so loop detection and suppression still apply to it.
+func (r *ref) sync(in *inst, dataArrived bool) {
 	now := in.sim.Now()
 	for k, e := range r.ents {
-		for f := range e.recs {
-			if implRec(in.dump, k, f) == nil {
+		for f, rc := range e.recs {
+			if implRec(in.dump, k, f) == nil && (dataArrived || !now.Before(rc.expiry)) {
 				delete(e.recs, f)
 			}
 		}
